@@ -240,6 +240,32 @@ fn single_failure(f: Fmt, s: &str) -> Option<String> {
     if a != c {
         return Some(format!("parse({:?}) = {} but parse_chars gives {}", s, a, c));
     }
+    // the typed stand-alone targets: string entry = character-vector entry, twice the same
+    {
+        use narsese::enum_narsese::{Budget, Punctuation, Stamp, Truth};
+        macro_rules! typed {
+            ($t:ty, $name:expr) => {{
+                let cls = |r: Obs<Result<$t, String>>| match r {
+                    Obs::Ret(Ok(v)) => format!("Ok({:?})", v),
+                    Obs::Ret(Err(_)) => "Err".to_string(),
+                    Obs::Panic(p) => format!("PANIC({})", panic_site(&p)),
+                };
+                let x = cls(observe(|| f.e().parse::<$t>(s).map_err(|e| e.to_string())));
+                let y = cls(observe(|| f.e().parse_chars::<$t>(s.chars().collect()).map_err(|e| e.to_string())));
+                let z = cls(observe(|| f.e().parse::<$t>(s).map_err(|e| e.to_string())));
+                if x != y {
+                    return Some(format!("parse::<{}>({:?}) = {} but parse_chars::<{}> gives {}", $name, s, x, $name, y));
+                }
+                if x != z {
+                    return Some(format!("parse::<{}>({:?}) gave {} and then {}", $name, s, x, z));
+                }
+            }};
+        }
+        typed!(Truth, "Truth");
+        typed!(Budget, "Budget");
+        typed!(Stamp, "Stamp");
+        typed!(Punctuation, "Punctuation");
+    }
     let lex = |s: &str| match observe(|| f.l().parse(s).map(|v| lexgen::lex_canon(&v)).map_err(|e| e.to_string())) {
         Obs::Ret(Ok(c)) => format!("Ok({})", c),
         Obs::Ret(Err(_)) => "Err".to_string(),
@@ -554,6 +580,52 @@ pub fn run(ctx: &mut Ctx) {
             }
         }
     }
+    // the empty input and one-character inputs through every entry point
+    for f in ALL_FMT {
+        for s in ["", " ", "\n", "\r\n", "\t", "A", "."] {
+            idx += 1;
+            if ctx.mine(idx) {
+                check_single_one(ctx, f, s, "family.tiny-inputs");
+            }
+        }
+    }
+    // one batch of 70 000 inputs (more than 2^16 inputs and items): position i still equals the solo parse
+    for (fi, f) in ALL_FMT.iter().enumerate() {
+        if ctx.shard != (fi + 3) % ctx.nshards {
+            continue;
+        }
+        let frs = fragments(*f);
+        let texts: Vec<String> = frs.iter().map(|(_, s)| s.clone()).collect();
+        let solo_classes: Vec<String> = texts.iter().map(|s| solo(*f, s)).collect();
+        let total = 70_000usize;
+        ctx.report.eval();
+        ctx.report.bump("family.one-batch-of-70000-inputs");
+        let r = observe(|| {
+            let rs = f.e().parse_multi((0..total).map(|i| texts[i % texts.len()].as_str()));
+            let mut bad = None;
+            if rs.len() != total {
+                bad = Some(format!("{} results for {} inputs", rs.len(), total));
+            }
+            for (i, r) in rs.iter().enumerate() {
+                let c = match r {
+                    Ok(v) => format!("Ok({})", canon_real_narsese(v)),
+                    Err(_) => "Err".to_string(),
+                };
+                if c != solo_classes[i % texts.len()] {
+                    bad = Some(format!("position {} ({:?}) = {} but alone {}", i, texts[i % texts.len()], c, solo_classes[i % texts.len()]));
+                    break;
+                }
+            }
+            bad
+        });
+        let why = match r {
+            Obs::Ret(x) => x,
+            Obs::Panic(p) => Some(format!("parse_multi panicked: {}", p)),
+        };
+        if let Some(w) = why {
+            ctx.report.violate(format!("C08|big-batch|{}", f.name()), format!("[{}] one batch of {} inputs: {}", f.name(), total, w), J::obj().set("kind", "big-batch").set("format", f.name()));
+        }
+    }
     // formats that differ from a shipped one in a single copula: "the format" is a value, so two
     // formats that share most (not all) of their vocabulary must not influence each other either
     for (bi, base) in ALL_FMT.iter().enumerate() {
@@ -683,6 +755,7 @@ pub fn replay(ctx: &mut Ctx, d: &J) -> Option<()> {
     }
     let f = fmt_of(d)?;
     match jstr(d, "kind")?.as_str() {
+        "big-batch" => {}
         "derived-format" => {
             let ci = d.get("copula_index")?.as_i128()? as usize;
             let bi = ALL_FMT.iter().position(|x| *x == f)?;
